@@ -27,7 +27,7 @@ fn env_u64(name: &str) -> Option<u64> {
 fn plan_for(property: &str, tier: &str, seed: u64, workers: usize) -> Result<Plan, String> {
     let thorough = tier == "thorough";
     let runs = |quick: u64, deep: u64| env_u64("VERIF_RUNS").unwrap_or(if thorough { deep } else { quick });
-    let cap = env_u64("VERIF_TIME_CAP_S").unwrap_or(if thorough { 1500 } else { 240 });
+    let cap = env_u64("VERIF_TIME_CAP_S").unwrap_or(if thorough { 1500 } else { 180 });
     let native = |config: &str, runs: u64| Batch {
         property: property.to_string(),
         config: config.to_string(),
@@ -52,7 +52,7 @@ fn plan_for(property: &str, tier: &str, seed: u64, workers: usize) -> Result<Pla
     match property {
         "C16" => Ok(Plan {
             level: "fault_enumeration",
-            batches: vec![native("enumerate", runs(2_400, 60_000))],
+            batches: vec![native("enumerate", runs(150_000, 2_500_000))],
             rule: "values (header values, builder configurations, reader streams, LimitedReader op sequences) are drawn from the seed; for each value EVERY fault position is enumerated: writers - hard error and Ok(0) at every byte position 0..=|E| (encodings above 4096 bytes: first 2048 positions, all part boundaries +-1, 64 seeded positions); readers - hard error and end-of-stream at every call index of the operation under whole, 1-byte and seeded chunking; output slices - every length 0..=|E|+1. distinct_nontrivial counts distinct (operation kind, value digest, fault kind, position) tuples whose fault actually fired inside the operation (or: slice shorter than the encoding; LimitedReader sequence with at least one refused read)",
             assumptions: vec![
                 "the fault-free run of the code under test defines the complete encoding / un-faulted result (C16 demands consistency with it, not its correctness - that is C08/C10)",
@@ -66,7 +66,7 @@ fn plan_for(property: &str, tier: &str, seed: u64, workers: usize) -> Result<Pla
         }),
         "C06" => Ok(Plan {
             level: "exploration",
-            batches: vec![native("compare", runs(30_000, 1_500_000))],
+            batches: vec![native("compare", runs(1_500_000, 30_000_000))],
             rule: "per run one reader kind (26 reader entry points incl. read_limited / read_without_version / skip_* variants), one generated header stream plus 10 damaged copies (byte flips biased to the first 20 bytes, truncation at a seeded point), each decoded through the reader under whole / 1-byte / seeded short+EINTR transfers and compared with the slice decoder on the slice that holds the announced packet. distinct_nontrivial counts distinct (kind, stream digest, limit, ip number, transfer pattern) tuples where the medium was damaged or the header has a length-dependent second part (stream > 20 bytes)",
             assumptions: vec![
                 "only the io::Read == from_slice clause of C06 is decided; the slice-vs-slice entry point equivalences are pure input relations (not applicable to this technique)",
@@ -79,10 +79,10 @@ fn plan_for(property: &str, tier: &str, seed: u64, workers: usize) -> Result<Pla
             exhaustive_note: "sampled",
         }),
         "C01" => {
-            let mut batches = vec![native("native", runs(20_000, 600_000))];
-            let m = miri_runs.unwrap_or(if thorough { 2_080 } else { 208 });
+            let mut batches = vec![native("native", runs(1_000_000, 20_000_000))];
+            let m = miri_runs.unwrap_or(if thorough { 2_080 } else { 104 });
             if m > 0 {
-                batches.push(miri("inspect", m, if thorough { 16 } else { 8 }));
+                batches.push(miri("inspect", m, 16));
             }
             Ok(Plan {
                 level: "exploration",
@@ -100,12 +100,12 @@ fn plan_for(property: &str, tier: &str, seed: u64, workers: usize) -> Result<Pla
         }
         "C11" => {
             let mut batches = vec![
-                native("clean", runs(1_500, 150_000)),
-                native("faulty", runs(3_000, 400_000)),
-                native("bulk", runs(500, 40_000)),
-                native("buf", runs(2_000, 200_000)),
+                native("clean", runs(40_000, 1_000_000)),
+                native("faulty", runs(100_000, 3_000_000)),
+                native("bulk", runs(30_000, 500_000)),
+                native("buf", runs(100_000, 3_000_000)),
             ];
-            let m = miri_runs.unwrap_or(if thorough { 32 } else { 0 });
+            let m = miri_runs.unwrap_or(if thorough { 64 } else { 0 });
             if m > 0 {
                 batches.push(miri("miri", m, 16));
             }
@@ -197,8 +197,8 @@ pub fn run_main(property: &str, tier: &str) -> i32 {
         total_runs += r.runs_done;
         requested_runs += b.runs;
         harness_errors.extend(r.harness_errors);
-        for v in r.violations {
-            violations.push((v, None, b.config.clone(), b.launcher.clone()));
+        for (run, v) in r.violations {
+            violations.push((v, run, b.config.clone(), b.launcher.clone()));
         }
         for (run, case, exit, stderr) in r.crashes {
             // re-execute the run alone, announcing every case, to learn which
@@ -245,11 +245,20 @@ pub fn run_main(property: &str, tier: &str) -> i32 {
         }
         seen.insert(pre_sig);
         match persist_violation(v, seed, *run, config, launcher) {
-            Ok(f) => findings.push(f),
+            Ok(f) => {
+                // one replay file per distinct minimised signature
+                let sig = crate::dispatch::signature(&f.violation);
+                if findings.iter().any(|g| crate::dispatch::signature(&g.violation) == sig) {
+                    let _ = std::fs::remove_file(&f.replay_path);
+                } else {
+                    findings.push(f);
+                }
+            }
             Err(e) => harness_errors.push(e),
         }
     }
 
+    stats.finalize();
     let wall = t0.elapsed().as_secs_f64();
     let evaluations = stats.get("executions").max(total_runs);
     let nontrivial = stats.set_len("nontrivial");
@@ -287,10 +296,18 @@ pub fn run_main(property: &str, tier: &str) -> i32 {
         )
         .set("counters", others(&stats, &["fault_fired.", "probe.", "executions", "runs"]));
     let mut distinct = J::obj();
-    for (name, set) in &stats.sets {
-        distinct.put(name, J::u(set.len() as u64));
+    for name in stats.set_names() {
+        distinct.put(&name, J::u(stats.set_len(&name)));
     }
     coverage.put("distinct_sets", distinct);
+    coverage.put(
+        "distinct_members_not_recorded",
+        J::u(stats.overflow),
+    );
+    coverage.put(
+        "distinct_counting",
+        J::s("exact union over all worker processes; a worker stops recording members of a set beyond 1 500 000 entries (distinct_members_not_recorded > 0 means the distinct counts are lower bounds)"),
+    );
     let mut fj = J::arr();
     for f in &findings {
         fj.push(
@@ -381,6 +398,7 @@ pub fn selftest_main(runs: Option<u64>) -> i32 {
         for config in configs {
             let n = if property == "C16" { n / 4 } else { n };
             let mut results = Vec::new();
+            let bad_before = bad;
             for workers in [1usize, 16, 7] {
                 let b = Batch {
                     property: property.to_string(),
@@ -426,7 +444,7 @@ pub fn selftest_main(runs: Option<u64>) -> i32 {
             println!(
                 "selftest {property}/{config}: {} runs x 3 executions (1, 16, 7 workers), digests {}, zero probes: {:?}",
                 base.len(),
-                if bad == 0 { "identical" } else { "DIFFER" },
+                if bad == bad_before { "identical" } else { "DIFFER" },
                 zero
             );
         }
